@@ -20,7 +20,7 @@ RULE = ("case = (library spec of 0-6 blocks over entries with 0-5 fields and key
         "and an entry with >= 2 fields; distinct = distinct (library, format)")
 ASSUMPTIONS = ["a custom parsing_failed_comment uses at most the documented {n} placeholder", "field values are str (the writer is specified for enclosed text values)"]
 MIN = {"separator": (20000, 400000), "field_layout": (20000, 400000), "auto_align": (2000, 40000), "failed_render": (3000, 60000),
-       "format_unchanged": (20000, 400000), "custom_failed_comment": (1000, 20000), "key_longer_than_column": (2000, 40000), "reused_format_object": (10000, 200000), "format_unchanged_after_raise": (300, 6000)}
+       "format_unchanged": (20000, 400000), "custom_failed_comment": (1000, 20000), "key_longer_than_column": (2000, 40000), "reused_format_object": (10000, 200000), "format_unchanged_after_raise": (300, 6000), "edited_library": (5000, 100000)}
 
 _SHARED = {}
 INDENTS = ["", " ", "\t", "    "]
@@ -59,6 +59,46 @@ def rand_library(r):
     return specs
 
 
+def rand_history(r, specs):
+    """Edits through the public API after construction (seed C06-l: the writer read the key index, which goes stale when entries
+    are re-keyed and then removed): re-key to a fresh key or to the key another block has or had, remove, re-add, replace, add."""
+    keyed = [s[2] if s[0] == "entry" else s[1] for s in specs if s[0] in ("entry", "string")] or ["k"]
+    steps = []
+    for _ in range(r.choice([1, 2, 2, 3, 4, 6])):
+        k = r.random()
+        i = r.randrange(max(1, len(specs)))
+        if k < .4:
+            steps.append(["rekey", i, r.choice(keyed + ["fresh%d" % len(steps)])])
+        elif k < .65:
+            steps.append(["remove", i])
+        elif k < .75:
+            steps.append(["readd", i])
+        elif k < .9:
+            steps.append(["add", ["entry", "misc", r.choice(keyed + ["new"]), [[r.choice(KEYS), r.choice(VALUES)]]]])
+        else:
+            steps.append(["replace", i, ["entry", "misc", r.choice(keyed + ["new"]), [[r.choice(KEYS), r.choice(VALUES)]]]])
+    return steps
+
+
+def spec_of(b):
+    k = sp.block_kind(b)
+    if k == "entry":
+        return ["entry", b.entry_type, b.key, [[f.key, f.value] for f in b.fields]]
+    if k == "string":
+        return ["string", b.key, b.value]
+    if k == "preamble":
+        return ["preamble", b.value]
+    if k in ("ecomment", "icomment"):
+        return [k, b.comment]
+    if b.raw is None:
+        # a wrapper without source text (block built in code): written as the block it wraps; its fields count for 'auto'
+        inner = getattr(b, "ignore_error_block", None)
+        if inner is not None and sp.block_kind(inner) == "entry":
+            return ["inplace", inner.entry_type, inner.key, [[f.key, f.value] for f in inner.fields]]
+        return ["inplace", None, None, []]
+    return ["failed", b.raw]
+
+
 def rand_format(r):
     col = r.choice(list(range(0, 41)) + ["auto"] * 10)
     return [r.choice(INDENTS), col, r.random() < .5, r.choice(SEPS), r.choice(FCOMMENTS)]
@@ -68,7 +108,12 @@ def cases(tier, seed, shard, nshards):
     r = rng_for(seed, shard, "c06")
     n = tier_pick(tier, 96000, 5000000) // nshards
     for i in range(n):
-        yield {"lib": rand_library(r), "fmt": rand_format(r)}
+        c = {"lib": rand_library(r), "fmt": rand_format(r)}
+        if i % 5 == 0 and 1 <= len(c["lib"]) <= 8:
+            c["hist"] = rand_history(r, c["lib"])
+            if i % 10 == 0:
+                c["fmt"][1] = "auto"
+        yield c
         if i % 400 == 0:
             # a library built in code (no source text anywhere): two blocks sharing a key, the library wraps the second one
             yield {"lib": [], "fmt": rand_format(r), "noraw": r.choice(["entry", "string"])}
@@ -93,6 +138,11 @@ def check(case, ctx):
     indent, col, tc, sep = fs[:4]
     fcomment = fs[4] if fs[4] is not None else "% WARNING Parsing failed for the following {n} lines."
     lib = build.library(specs)
+    if case.get("hist"):
+        # the library was edited after construction: the contract is about the blocks it holds now
+        if build.apply_history(lib, case["hist"]):
+            ctx.mon("edited_library")
+        specs = [spec_of(b) for b in lib.blocks]
     if case.get("noraw"):
         from bibtexparser import model as M
         ctx.mon("library_built_in_code")
@@ -152,7 +202,7 @@ def check(case, ctx):
     if st == "raise" or text2 != text:
         out.append(Violation("write_string-differs", "C06:write_string-differs-from-writer", dict(got=text2[:200], want=text[:200])))
     # 'auto' = minimal common column = 3 + longest field key of any entry block
-    entries = [s for s in specs if s[0] == "entry"]
+    entries = [s for s in specs if s[0] in ("entry", "inplace")]
     maxkey = max([len(k) for s in entries for k, _ in s[3]] + [0])
     rcol = 3 + maxkey if col == "auto" else col
     if col == "auto":
@@ -199,6 +249,8 @@ def check(case, ctx):
             if c != want:
                 why = "comment" if c.endswith("\n" + raw + "\n") else "raw"
                 out.append(Violation("failed-render", f"C06:failed-render:{why}", dict(case=case, chunk=c, want=want)))
+        elif k == "inplace":
+            pass
         elif k == "icomment":
             if spec[1].strip() not in c:
                 out.append(Violation("content-missing", "C06:content-missing:icomment", dict(chunk=c, want=spec[1])))
